@@ -234,6 +234,13 @@ def impl_case(case, workdir):
     for p in (path, path + ".tmp~"):
         if os.path.exists(p):
             os.remove(p)
+    # the SAME destination named in another way (the property speaks of the file, not of the spelling of its name)
+    form = case.get("pathform", "plain")
+    given = {"plain": path, "trailing-sep": path + os.sep, "dot-segment": os.path.join(workdir, ".", "dest.h5"),
+             "double-sep": workdir + os.sep + os.sep + "dest.h5",
+             "parent-segment": os.path.join(workdir, "sub", "..", "dest.h5")}[form]
+    if form == "parent-segment":
+        os.makedirs(os.path.join(workdir, "sub"), exist_ok=True)
     prev_loaded = None
     with warnings.catch_warnings():
         warnings.simplefilter("ignore")
@@ -253,11 +260,12 @@ def impl_case(case, workdir):
         obj = build_obj(case["single"]) if "single" in case else build_ws(case["ws"])
         raised = None
         try:
-            dnp.save(obj, path, overwrite=bool(case.get("overwrite")))
+            dnp.save(obj, given, overwrite=bool(case.get("overwrite")))
         except BaseException as e:  # noqa: BLE001  (save raises Warning, a BaseException subclass of Exception)
             raised = type(e).__name__
         state = {"raised": raised is not None, "exists": os.path.exists(path), "tree": None, "loaded": None,
-                 "loads": False, "prev_loaded": prev_loaded, "leftover_tmp": os.path.exists(path + ".tmp~"),
+                 "loads": False, "prev_loaded": prev_loaded,
+                 "leftover_tmp": any(n != "dest.h5" and n != "sub" for n in os.listdir(workdir)),
                  "bytes_same": (prev_bytes is not None and os.path.exists(path) and open(path, "rb").read() == prev_bytes)}
         if state["exists"]:
             try:
